@@ -20,7 +20,14 @@ CFG = {
             "faults with valid traffic on two other keep-alive connections; (7) plain bytes, aborted and garbage "
             "handshakes against the TLS listener; (8) tls-stalled-handshake: one or several peers send a prefix of a "
             "ClientHello (0, 1, 3, 5, 6, 11, 40 ... bytes; every prefix in thorough) and stay connected while the "
-            "listener is probed, incl. crowds of 63, 64, 65, 130, 260 peers (thorough also 127..129, 255..257, 520, 1030; a "
+            "listener is probed; well-formed but INCOMPATIBLE handshakes: hand-built ClientHello records (SSL3/TLS 1.0/1.1 "
+            "only, TLS 1.2 with RSA-only suites against the ECDSA key, NULL/export/unknown suites, unknown or ffdhe "
+            "groups, no common signature scheme, foreign/empty/absent ALPN, other/absent/IP SNI, deflate-only "
+            "compression, compressed points only, a good hello followed by close_notify / fatal alert / plaintext "
+            "HTTP / an unasked Certificate / a second hello; also on the plain ports) and a rustls client with "
+            "foreign ALPN, one protocol version, RSA-only / single suites, single groups, other SNI; TLS-port cases "
+            "run in three lanes (one listener each, one case at a time per lane) and a listener that no longer "
+            "answers after a case is replaced, so that the case that took it down is the violation; incl. crowds of 63, 64, 65, 130, 260 peers (thorough also 127..129, 255..257, 520, 1030; a "
             "crowd that does not fit under RLIMIT_NOFILE is skipped and tagged stalled-peers-wanted:N:skipped); (9) accept(2) made to fail with EMFILE while a connection waits in the listen "
             "queue. After every TLS-port fault a complete TLS handshake (rustls client) + GET /health on a fresh "
             "connection must give 200 within 5 s, besides the plain-bytes liveness probe. After every fault (and every sequence) a well-formed request on a "
